@@ -210,6 +210,7 @@ fn ingredient_menu() -> Vec<Ingredient> {
         for unit in [None, Some("kg"), Some("cup")] {
             v.push(mk(name, a(Value::Number { value: 1.5 }, unit)));
             v.push(mk(name, a(Value::Number { value: 0.25 }, unit)));
+            v.push(mk(name, a(Value::Number { value: 0.0006 }, unit)));
             v.push(mk(name, a(Value::Range { start: 1.0, end: 2.5 }, unit)));
         }
         v.push(mk(name, a(Value::Text { value: "p".into() }, None)));
@@ -287,6 +288,17 @@ fn observed_of(list: &cooklang_bindings::model::IngredientList) -> Expected {
     e
 }
 
+/// equal keys, equal text pieces, sums equal up to floating-point reassociation (1e-12 relative)
+fn same_sums(a: &Expected, b: &Expected) -> bool {
+    if a.len() != b.len() {
+        return false;
+    }
+    a.iter().zip(b.iter()).all(|((ka, va), (kb, vb))| {
+        let close = |x: f64, y: f64| (x - y).abs() <= 1e-12 * x.abs().max(y.abs()).max(1e-300);
+        ka == kb && va.2 == vb.2 && close(va.0, vb.0) && close(va.1, vb.1)
+    })
+}
+
 fn permutations(n: usize) -> Vec<Vec<usize>> {
     if n == 0 {
         return vec![vec![]];
@@ -320,7 +332,7 @@ pub fn combine_check(menu: &[Ingredient], idxs: &[usize]) -> Vec<Violation> {
                 return out;
             }
         };
-        if got != want {
+        if !same_sums(&got, &want) {
             out.push(Violation::new("combine_ingredients does not sum each input once", format!("list {l:?}: got {got:?}, expected {want:?}"), case));
             return out;
         }
@@ -334,7 +346,7 @@ pub fn combine_check(menu: &[Ingredient], idxs: &[usize]) -> Vec<Violation> {
         let b = guarded(|| combine_ingredients(&sub));
         match (a, b) {
             (Ok(a), Ok(b)) => {
-                if observed_of(&a) != observed_of(&b) || a != b {
+                if !same_sums(&observed_of(&a), &observed_of(&b)) {
                     out.push(Violation::new("combining a selection differs from combining that subset", format!("list {list:?} selection {sel:?}: {a:?} vs {b:?}"), case));
                     return out;
                 }
@@ -368,7 +380,7 @@ pub fn replay(case: &J) -> Vec<Violation> {
 
 pub fn run(tier: Tier) {
     let c = ctx();
-    c.set_rule("mirror: every string over a canonical-syntax component alphabet up to n symbols (and the token alphabet, the corpus and its single edits) that the canonical parser accepts x factors {1, 1/2, 3}: parse_recipe vs CooklangParser::canonical().parse().scale(): same sections, titles, block kinds, items, indices, components (names, notes, amounts and units read through the Amount hook), deref_* resolve to the denoted component, step and section reference lists, string metadata; combine: every list of <= n ingredients over a menu of 26 (2 names x {number x2, range, text, empty, none} x {2 units, none}) in every order and every selection: per (name, unit, kind) the sums equal the reference, each text piece contributes once, combine_selected == combine of the subset; non-trivial = canonically valid input with a component / list; distinct = distinct FFI recipes / lists");
+    c.set_rule("mirror: every string over a canonical-syntax component alphabet up to n symbols (and the token alphabet, the corpus and its single edits) that the canonical parser accepts x factors {1, 1/2, 3}: parse_recipe vs CooklangParser::canonical().parse().scale(): same sections, titles, block kinds, items, indices, components (names, notes, amounts and units read through the Amount hook), deref_* resolve to the denoted component, step and section reference lists, string metadata; combine: every list of <= n ingredients over a menu of 32 (2 names x {number x2, range, text, empty, none} x {2 units, none}) in every order and every selection: per (name, unit, kind) the sums equal the reference, each text piece contributes once, combine_selected == combine of the subset; non-trivial = canonically valid input with a component / list; distinct = distinct FFI recipes / lists");
     let one = Arc::new(configs(&[cooklang::Extensions::empty()], &[Conv::Empty]));
     let atoms = Alphabet::new(
         "A_canonical",
